@@ -1,7 +1,7 @@
 (* C04 — every reported location is the exact 1-based line and code-point column. *)
 From Coq Require Import String List Bool Arith NArith.
 Import ListNotations.
-Require Import Kinds Automaton PyStr Line Matcher Ast Builder Pipeline PipelineFacts CellsSpec LocationFacts DeliveryInst PipelineErrors Delivery Table.
+Require Import Kinds Automaton PyStr Line Matcher Ast Builder Pipeline PipelineFacts CellsSpec LocationFacts DeliveryInst PipelineErrors Delivery Table ConserveDefs LocationsAst.
 
 (* lines: the source is cut after each line feed (and only there); pieces are numbered from 1 and
    every token delivered to the builder carries the number of its own piece (C18_delivery) *)
@@ -53,6 +53,16 @@ Theorem C04_error_location : forall t l expected, tk_line t = Some l ->
   /\ (loc_col (tk_loc t) = None -> loc_col (e_loc (unexpected t expected)) = Some (l_indent l + 1)).
 Proof. exact unexpected_token_location. Qed.
 Print Assumptions C04_error_location.
+
+(* lifted to whole ASTs (through C03_conservation): every keyword line, tag and table row of the AST of an accepted
+   source was read from one physical line i+1 of the source and is located there: keyword lines and rows at
+   column indent+1 of that line, where the line's trimmed text starts with the reported keyword (followed by ':'
+   for titles) and the reported name / step text is the trimmed rest; a tag at the column `line_tags` reports for
+   it (C04_tags: the '@'); a row's cells at the columns `table_cells` reports (C04_cells) *)
+Theorem C04_ast_elements : forall stop m b src d m1 b1 n, wf_ms m -> parse_source stop m b src = POk d m1 b1 n ->
+  Forall (fun e => exists i text, nth_error (py_lines src) i = Some text /\ elem_at (make_line text (S i)) (S i) e) (doc_elems d).
+Proof. exact ast_elements_located. Qed.
+Print Assumptions C04_ast_elements.
 
 Example C04_example :
   line_tags (make_line (s2l "  @a  @b-c #x @no"%string) 1) = TagsOk [(3, s2l "@a"%string); (7, s2l "@b-c"%string)]
